@@ -1,1 +1,179 @@
-fn main(){}
+//! C18: the real `generate_char_fn_ranges` of crates/char_range_gen (reached through the
+//! cfg(lexgen_verif) entry points) on every predicate of a boundary family, against maximal runs
+//! computed on the segment representation.
+#![allow(dead_code, unused)]
+
+#[path = "/repo/crates/char_range_gen/src/main.rs"]
+mod gen;
+
+use refmodel::serde_json::{json, Value};
+use std::cell::Cell;
+use std::sync::atomic::{AtomicUsize, Ordering};
+use std::sync::Mutex;
+
+/// Elementary segments between the cut points 0, 1, 7F, 80, D7FE, D7FF, E000, E001, 10FFFE, 10FFFF
+/// (scalar values only; D7FF and E000 are neighbours).
+const SEGS: [(u32, u32); 10] = [
+    (0, 0),
+    (1, 0x7E),
+    (0x7F, 0x7F),
+    (0x80, 0xD7FD),
+    (0xD7FE, 0xD7FE),
+    (0xD7FF, 0xD7FF),
+    (0xE000, 0xE000),
+    (0xE001, 0x10FFFD),
+    (0x10FFFE, 0x10FFFE),
+    (0x10FFFF, 0x10FFFF),
+];
+
+thread_local! {
+    static MASK: Cell<u32> = Cell::new(0);
+}
+
+fn seg_of(c: u32) -> usize {
+    SEGS.iter().position(|(s, e)| *s <= c && c <= *e).unwrap()
+}
+
+fn pred(c: char) -> bool {
+    let m = MASK.with(|m| m.get());
+    (m >> seg_of(c as u32)) & 1 == 1
+}
+
+fn expected(mask: u32) -> Vec<(u32, u32)> {
+    let mut out: Vec<(u32, u32)> = vec![];
+    let mut open: Option<u32> = None;
+    for (k, (s, e)) in SEGS.iter().enumerate() {
+        let on = (mask >> k) & 1 == 1;
+        if on && open.is_none() {
+            open = Some(*s);
+        }
+        let next_on = k + 1 < SEGS.len() && (mask >> (k + 1)) & 1 == 1;
+        if on && !next_on {
+            out.push((open.take().unwrap(), *e));
+        }
+    }
+    out
+}
+
+fn invariants(r: &[(u32, u32)]) -> Option<String> {
+    for &(s, e) in r {
+        if s > e {
+            return Some(format!("inverted range ({s:#x},{e:#x})"));
+        }
+        if char::from_u32(s).is_none() || char::from_u32(e).is_none() {
+            return Some(format!("end point of ({s:#x},{e:#x}) is not a scalar value"));
+        }
+    }
+    for w in r.windows(2) {
+        let next_scalar = if w[0].1 == 0xD7FF { 0xE000 } else { w[0].1 + 1 };
+        if w[1].0 <= w[0].1 {
+            return Some(format!("ranges ({:#x},{:#x}) ({:#x},{:#x}) overlap or are unsorted", w[0].0, w[0].1, w[1].0, w[1].1));
+        }
+        if w[1].0 == next_scalar {
+            return Some(format!("ranges ({:#x},{:#x}) ({:#x},{:#x}) are adjacent (not maximal)", w[0].0, w[0].1, w[1].0, w[1].1));
+        }
+    }
+    None
+}
+
+fn show_mask(mask: u32) -> String {
+    let segs: Vec<String> = (0..SEGS.len()).filter(|k| (mask >> k) & 1 == 1).map(|k| format!("{:X}..={:X}", SEGS[k].0, SEGS[k].1)).collect();
+    format!("predicate true exactly on [{}]", segs.join(", "))
+}
+
+fn main() {
+    let a: Vec<String> = std::env::args().collect();
+    let bits: u32 = a.get(1).and_then(|s| s.parse().ok()).unwrap_or(10);
+    let t0 = std::time::Instant::now();
+    let masks: Vec<u32> = if bits >= 10 {
+        (0..1024).collect()
+    } else {
+        // quick subset: all combinations of the segments around the gap and at both ends, rest off/on
+        (0..1024u32).filter(|m| (m >> 1) & 1 == (m >> 3) & 1 && (m >> 3) & 1 == (m >> 7) & 1).collect()
+    };
+    let next = AtomicUsize::new(0);
+    let viols: Mutex<Vec<Value>> = Mutex::new(vec![]);
+    let nontrivial = AtomicUsize::new(0);
+    let distinct: Mutex<std::collections::HashSet<Vec<(u32, u32)>>> = Mutex::new(Default::default());
+    std::thread::scope(|s| {
+        for _ in 0..16 {
+            s.spawn(|| loop {
+                let i = next.fetch_add(1, Ordering::SeqCst);
+                if i >= masks.len() {
+                    break;
+                }
+                let mask = masks[i];
+                MASK.with(|m| m.set(mask));
+                let got = std::panic::catch_unwind(|| gen::verif_generate_char_fn_ranges(pred));
+                let exp = expected(mask);
+                if exp.len() >= 2 || exp.iter().any(|r| r.1 == 0x10FFFF || r.1 == 0xD7FF || r.0 == 0xE000) {
+                    nontrivial.fetch_add(1, Ordering::Relaxed);
+                }
+                let bad = match &got {
+                    Err(_) => Some("generator panicked".to_string()),
+                    Ok(g) => invariants(g).or_else(|| if *g != exp { Some(format!("expected {exp:x?}")) } else { None }),
+                };
+                if let Ok(g) = &got {
+                    distinct.lock().unwrap().insert(g.clone());
+                }
+                if let Some(b) = bad {
+                    let mut v = viols.lock().unwrap();
+                    if v.len() < 20 {
+                        v.push(json!({"kind": "generator", "definition": show_mask(mask), "input": format!("mask {mask:#012b}"), "detail": format!("{b}; generated {:x?}", got.ok())}));
+                    }
+                }
+            });
+        }
+    });
+    let mut viols = viols.into_inner().unwrap();
+    // the 20 real predicates: generator vs a direct scan, and names vs the documented list
+    let mut real = vec![];
+    let fns = gen::verif_fns();
+    let names: Vec<&str> = refmodel::builtins::builtin_names();
+    for (f, name) in fns.iter() {
+        let got = gen::verif_generate_char_fn_ranges(*f);
+        // direct scan with runs merged across the gap
+        let scan = refmodel::builtins::scan_pred(|c| f(c));
+        let mut merged: Vec<(u32, u32)> = vec![];
+        for (s, e) in scan {
+            if let Some(l) = merged.last_mut() {
+                if l.1 == 0xD7FF && s == 0xE000 {
+                    l.1 = e;
+                    continue;
+                }
+            }
+            merged.push((s, e));
+        }
+        let bad = invariants(&got).or_else(|| if got != merged { Some("differs from a direct scan".to_string()) } else { None });
+        if let Some(b) = bad {
+            viols.push(json!({"kind": "generator", "definition": format!("real predicate {name}"), "input": null, "detail": b}));
+        }
+        // the generator's (function, NAME) pairing against the documented predicate of that name
+        let doc = names.iter().find(|n| n.to_uppercase() == *name).and_then(|n| refmodel::builtins::pred_of(n));
+        match doc {
+            None => viols.push(json!({"kind": "generator-names", "definition": format!("table {name}"), "input": null, "detail": "no documented built-in of that name"})),
+            Some(p) => {
+                let differs = (0..=0x10FFFFu32).filter_map(char::from_u32).find(|c| p(*c) != f(*c));
+                if let Some(c) = differs {
+                    viols.push(json!({"kind": "generator-names", "definition": format!("table {name}"), "input": c.to_string(), "detail": "the function listed for this table is not the documented predicate"}));
+                }
+            }
+        }
+        real.push(json!({"name": name, "ranges": got.len()}));
+    }
+    let out = json!({
+        "predicates": masks.len(),
+        "predicate_calls": masks.len() as u64 * 1_112_064,
+        "nontrivial": nontrivial.into_inner(),
+        "distinct_tables": distinct.into_inner().unwrap().len(),
+        "real_predicates": real,
+        "samples": [
+            {"predicate": show_mask(0b1111111111), "expected": format!("{:x?}", expected(0b1111111111))},
+            {"predicate": show_mask(0b0000110000), "expected": format!("{:x?}", expected(0b0000110000))},
+            {"predicate": show_mask(0b1001100101), "expected": format!("{:x?}", expected(0b1001100101))},
+        ],
+        "violations": viols,
+        "wall_s": t0.elapsed().as_secs_f64(),
+    });
+    println!("{out}");
+}
